@@ -854,6 +854,8 @@ func (filter *TrzszFilter) wrapOutput() {
 			if filter.options.EnableZmodem {
 				if zmodem := detectZmodem(buf); zmodem != nil {
 					_ = writeAll(filter.clientOut, buf)
+					// a Ctrl-C may reach the session as soon as it is published: it needs its ends by then
+					zmodem.logger, zmodem.serverIn, zmodem.clientOut = filter.logger, filter.serverIn, filter.clientOut
 					if filter.zmodem.CompareAndSwap(nil, zmodem) {
 						hideCursor(filter.clientOut)
 						filter.hidingCursor = true
